@@ -2774,6 +2774,357 @@ Proof.
   - intros; lia.
 Qed.
 
+
+(* ---------- look-arounds, stage 2 ---------- *)
+Definition body_okD (x : expr) (gx : nat) : Prop :=
+  hard bs gx x = false \/ (seg_stmtD false x /\ oke false gx x).
+
+Lemma seg_bodyD x gx pc ns code ns1 : body_okD x gx -> NC <= ns -> 2 * (gx + ngroups x) <= NC ->
+  visit bs x gx false pc ns = inr (code, ns1) -> okdeleg2 code -> At pc code ->
+  ns <= ns1 /\
+  forall v K, ns1 <= length (v_sl v) -> st_ok cs (sof v) ->
+  Gen pc (pc + length code) K (RunV pc v K) (map (R false v ns ns1) (asem x gx false (sof v))).
+Proof.
+  intros [Hh|[IH Hok]] Hns Hng Hv Hnd HAt.
+  - rewrite (visit_easy x gx pc ns Hh) in Hv. inversion Hv; subst code ns1. split; auto.
+    intros v K Hsl Hokv. rewrite asem_easy by (now rewrite Hh). apply seg_delegD; auto using st_ok_ix; lia.
+  - exact (IH gx false pc ns code ns1 Hv Hnd HAt Hok Hns Hng).
+Qed.
+
+Lemma seg_la_innerD la x gx pc ns code ns1 : body_okD x gx ->
+  la_inner la x gx pc ns = inr (code, ns1) -> okdeleg2 code -> At pc code ->
+  NC <= ns -> 2 * (gx + ngroups x) <= NC ->
+  ns <= ns1 /\
+  forall v K, ns1 <= length (v_sl v) -> st_ok cs (sof v) ->
+  Gen pc (pc + length code) K (RunV pc v K) (map (R false v ns ns1) (la_f la (atomize bs x gx false) gx (sof v))).
+Proof.
+  intros IH Hi Hnd HAt Hns Hng.
+  assert (Hahead : visit bs x gx false pc ns = inr (code, ns1) -> ns <= ns1 /\
+            forall v K, ns1 <= length (v_sl v) -> st_ok cs (sof v) ->
+            Gen pc (pc + length code) K (RunV pc v K) (map (R false v ns ns1) (asem x gx false (sof v)))).
+  { intros Hv. exact (seg_bodyD x gx pc ns code ns1 IH Hns Hng Hv Hnd HAt). }
+  assert (Hbehind : (if const_size x then
+             bindc (visit bs x gx false (pc + 1) ns) (fun '(code, ns1) => inr (IGoBack (min_size x) :: code, ns1))
+           else inl CLookBehindNotConst) = inr (code, ns1) -> ns <= ns1 /\
+            forall v K, ns1 <= length (v_sl v) -> st_ok cs (sof v) ->
+            Gen pc (pc + length code) K (RunV pc v K)
+              (map (R false v ns ns1) (match goback cx (fst (sof v)) (min_size x) (fst (sof v)) with
+                                 | GBOk j => asem x gx false (j, snd (sof v)) | _ => [] end))).
+  { destruct (const_size x); [|discriminate]. intros Hv.
+    apply bindc_inr in Hv as ([cc n1] & Hc & Hr). inversion Hr; subst code ns1. clear Hr.
+    apply At_cons in HAt as [Ha HAc]. apply okdeleg2_cons in Hnd as [_ Hndc].
+    replace (pc + 1) with (S pc) in Hc by lia.
+    destruct (seg_bodyD x gx (S pc) ns cc n1 IH Hns Hng Hc Hndc HAc) as [M G]. split; auto.
+    intros v K Hsl Hokv. cbn [sof fst snd]. apply Gen_step. unfold RunV at 1.
+    rewrite (step_goback cx P MS pc _ _ _ K _ Ha).
+    destruct Hokv as [Bix Hcaps]. cbn [sof fst snd] in Bix, Hcaps.
+    pose proof (goback_sound cs W cx Htext (v_ix v) (min_size x) (v_ix v) Bix (le_n _)) as Gs.
+    destruct (goback cx (v_ix v) (min_size x) (v_ix v)) as [j| |].
+    - destruct Gs as (n0 & _ & D0). destruct (dist_bnd cs W _ _ _ D0) as (Bj & _ & _).
+      change (Run (S pc) j (v_sl v) (v_aux v) K) with (RunV (S pc) (setix v j) K).
+      apply Gen_weaken with (p := S pc); [lia|].
+      replace (pc + length (IGoBack (min_size x) :: cc)) with (S pc + length cc) by (cbn [length]; lia).
+      apply (G (setix v j) K); auto. split; auto.
+    - apply Gen_nil. apply steps_refl.
+    - destruct Gs. }
+  destruct la; cbn [la_inner la_f] in *; rewrite ?at_min; auto.
+Qed.
+
+Lemma la_f_shortD la x gx : hard bs gx x = false ->
+  forall st, length (la_f la (atomize bs x gx false) gx st) <= 1.
+Proof.
+  intros Hh st.
+  assert (Hs : forall s, length (asem x gx false s) <= 1).
+  { intros s. rewrite asem_easy by (now rewrite Hh). destruct (sem cx x fuel gx s) as [|a [|b l]]; cbn; lia. }
+  destruct la; cbn [la_f]; auto; destruct (goback cx (fst st) _ (fst st)); cbn [length]; auto; lia.
+Qed.
+
+Lemma seg_la_posD lk la c g pc ns code ns' : body_okD c g ->
+  la_pos la c g pc ns = inr (code, ns') -> okdeleg2 code -> At pc code ->
+  NC <= ns -> 2 * (g + ngroups c) <= NC ->
+  segP lk pc code ns ns' (fun st => map (fun s' => (fst st, snd s')) (firstn 1 (la_f la (atomize bs c g false) g st))).
+Proof.
+  intros IH Hv Hnd HAt Hns Hng. unfold la_pos in Hv. cbv zeta in Hv.
+  apply bindc_inr in Hv as ([cc n1] & Hi & Hr). inversion Hr; subst code ns'. clear Hr.
+  assert (Hsub : okdeleg2 cc /\ At (pc + 1 + (if hard bs g c then 1 else 0)) cc).
+  { pose proof HAt as HAt'. apply At_cons in HAt' as [_ HAt']. apply okdeleg2_cons in Hnd as [_ Hnd].
+    destruct (hard bs g c); cbn [app] in *.
+    - apply At_cons in HAt' as [_ HAt']. apply At_app in HAt' as [HA _]. apply okdeleg2_cons in Hnd as [_ Hnd].
+      apply okdeleg2_app in Hnd as [Hn _]. split; auto. replace (pc + 1 + 1) with (S (S pc)) by lia. exact HA.
+    - apply At_app in HAt' as [HA _]. apply okdeleg2_app in Hnd as [Hn _]. split; auto.
+      replace (pc + 1 + 0) with (S pc) by lia. exact HA. }
+  destruct Hsub as [Hndc HAc].
+  destruct (seg_la_innerD la c g _ (ns + 1) cc n1 IH Hi Hndc HAc ltac:(lia) Hng) as [M G].
+  apply pos_wrap; auto; try lia. intros Hh st Hst. now apply la_f_shortD.
+Qed.
+
+Lemma seg_la_negD lk la c g pc ns code ns' : body_okD c g ->
+  la_neg la c g pc ns = inr (code, ns') -> okdeleg2 code -> At pc code ->
+  NC <= ns -> 2 * (g + ngroups c) <= NC ->
+  segP lk pc code ns ns' (fun st => match la_f la (atomize bs c g false) g st with [] => [st] | _ => [] end).
+Proof.
+  intros IH Hv Hnd HAt Hns Hng. unfold la_neg in Hv.
+  apply bindc_inr in Hv as ([cc n1] & Hi & Hr). inversion Hr; subst code ns'. clear Hr.
+  pose proof HAt as HAt'. apply At_cons in HAt' as [_ HAt']. apply At_app in HAt' as [HAc _].
+  apply okdeleg2_cons in Hnd as [_ Hnd]. apply okdeleg2_app in Hnd as [Hndc _].
+  replace (S pc) with (pc + 1) in HAc by lia.
+  destruct (seg_la_innerD la c g _ ns cc n1 IH Hi Hndc HAc Hns Hng) as [M G].
+  apply neg_wrap; auto.
+Qed.
+
+(* the semantics of a look-around over the atomized body, in the la_f form *)
+Lemma sem_la_eqD c la g st : wfe c -> (is_behind la = true -> zok c) -> st_ok cs st ->
+  (match la with LookBehind | LookBehindNeg => const_size c = true | _ => True end) ->
+  sem cx (LookAround (atomize bs c g false) la) fuel g st =
+  match la with
+  | LookAhead | LookBehind => map (fun s' => (fst st, snd s')) (firstn 1 (la_f la (atomize bs c g false) g st))
+  | _ => match la_f la (atomize bs c g false) g st with [] => [st] | _ => [] end
+  end.
+Proof.
+  intros Hw Hz Hok Hc. apply sem_la_eq; auto.
+  - now apply at_wfe.
+  - intros Hb. apply at_zok. auto.
+  - destruct la; auto; now rewrite at_const.
+Qed.
+
+Lemma la_pos_okD lk la x : (la = LookAhead \/ la = LookBehind) -> seg_stmtD false x ->
+  cf_okD false lk (la_pos la) (fun x g => sem cx (LookAround (atomize bs x g false) la) fuel g) x.
+Proof.
+  intros Hla IH g pc ns code ns' Hv Hnd HAt Hok Hns Hng.
+  eapply segP_ext; [|eapply seg_la_posD; eauto; right; split; auto]. intros st Hst. cbv beta.
+  destruct Hok as (Hw & Hz & _). rewrite sem_la_eqD; auto.
+  - destruct Hla as [->| ->]; reflexivity.
+  - destruct Hla as [->| ->]; auto. eapply (la_const LookBehind); eauto.
+Qed.
+Lemma la_neg_okD lk la x : (la = LookAheadNeg \/ la = LookBehindNeg) -> seg_stmtD false x ->
+  cf_okD false lk (la_neg la) (fun x g => sem cx (LookAround (atomize bs x g false) la) fuel g) x.
+Proof.
+  intros Hla IH g pc ns code ns' Hv Hnd HAt Hok Hns Hng.
+  eapply segP_ext; [|eapply seg_la_negD; eauto; right; split; auto]. intros st Hst. cbv beta.
+  destruct Hok as (Hw & Hz & _). rewrite sem_la_eqD; auto.
+  - destruct Hla as [->| ->]; reflexivity.
+  - destruct Hla as [->| ->]; auto. eapply (la_const LookBehindNeg); eauto.
+Qed.
+
+
+Lemma zok_atom_list hc : forall l g, zok_list l -> zok_list (atom_list bs hc g l).
+Proof. induction l as [|x r IH]; intros g H; [exact I|]. destruct H. split; [now apply at_zok|now apply IH]. Qed.
+Lemma in_atom_list hc : forall l g x', In x' (atom_list bs hc g l) -> exists x gx, In x l /\ x' = atomize bs x gx hc.
+Proof.
+  induction l as [|x r IH]; intros g x' H; [destruct H|]. cbn [atom_list] in H. destruct H as [<-|H].
+  - exists x, g. split; [left; auto|auto].
+  - destruct (IH _ _ H) as (y & gy & Hy & E). exists y, gy. split; [right; auto|auto].
+Qed.
+Lemma at_alt_const hc es g : const_size (Alt (atom_list bs hc g es)) = const_size (Alt es).
+Proof.
+  apply (keeps_alt es (atom_list bs hc g es)). apply atom_list_keeps. apply Forall_forall. intros x _ g0 hc0. apply atomize_keeps.
+Qed.
+Lemma gsem_alts_atom_list la : forall l g st,
+  gsem_alts (fun x' gx s => sem cx (LookAround x' la) fuel gx s) g (atom_list bs false g l) st =
+  gsem_alts (fun x gx => sem cx (LookAround (atomize bs x gx false) la) fuel gx) g l st.
+Proof. induction l as [|x r IH]; intros g st; [reflexivity|]. cbn [atom_list gsem_alts]. now rewrite at_ngroups, IH. Qed.
+Lemma gsem_seq_atom_list la : forall l g st,
+  gsem_seq (fun x' gx s => sem cx (LookAround x' la) fuel gx s) g (atom_list bs false g l) st =
+  gsem_seq (fun x gx => sem cx (LookAround (atomize bs x gx false) la) fuel gx) g l st.
+Proof.
+  induction l as [|x r IH]; intros g st; [reflexivity|]. cbn [atom_list gsem_seq]. rewrite at_ngroups.
+  apply flat_map_ext. intros a. apply IH.
+Qed.
+
+Lemma seg_lookaroundD lk c la : seg_stmtD false c -> (forall es, c = Alt es -> Forall (seg_stmtD false) es) ->
+  seg_stmtD lk (LookAround c la).
+Proof.
+  intros IH IHalts. startD (LookAround c la).
+  cbn [wfe] in Hw. cbn [acheck] in Hac. cbn [rok] in Hrk. destruct Hrk as [Hrk Hzb]. cbn [ngroups] in Hng.
+  destruct (match la, c with (LookBehind | LookBehindNeg), Alt _ => negb (const_size c) | _, _ => false end) eqn:Esplit.
+  { destruct c as [| | | | |es| | | | | | | | | | |]; try (destruct la; discriminate).
+    assert (Hla : la = LookBehind \/ la = LookBehindNeg) by (destruct la; auto; discriminate).
+    assert (Hcs : const_size (Alt es) = false) by (destruct la; try discriminate; now apply negb_true_iff in Esplit).
+    rewrite (atomize_lb_split bs es g hc la Edel Hla Hcs).
+    specialize (IHalts es eq_refl).
+    assert (Hzc : zok (Alt es)) by exact Hz.
+    assert (Hoc : oke false g (Alt es)) by (repeat split; auto).
+    destruct es as [|x r]; [destruct Hoc as (_ & _ & Ha & _); discriminate|].
+    pose proof (okl_of_alt false g x r Hoc) as Hokl. rewrite ngroups_alt in Hng.
+    rewrite wfe_alt in Hw. rewrite zok_alt in Hzc.
+    assert (Hcs' : const_size (Alt (atom_list bs false g (x :: r))) = false) by now rewrite at_alt_const.
+    destruct la; try (destruct Hla; discriminate).
+    - rewrite (visit_lb_split (x :: r) g hc pc ns Hcs) in Hv.
+      destruct (galt_codes (la_pos LookBehind) g pc ns (x :: r)) as [er|[cds ns1]] eqn:Hc; [discriminate|].
+      inversion Hv; subst code ns'. clear Hv.
+      assert (Hcf : Forall (cf_okD false lk (la_pos LookBehind) (fun x g => sem cx (LookAround (atomize bs x g false) LookBehind) fuel g)) (x :: r)).
+      { eapply Forall_impl; [|exact IHalts]. intros a Ha. apply la_pos_okD; auto. }
+      destruct (gseg_altsD false lk _ _ r x Hcf g pc ns cds ns1 Hc Hnd HAt Hokl Hns Hng) as [M G]. split; auto.
+      intros v K Hsl Hokv. rewrite alt_layout_length.
+      rewrite sem_lb_split; auto using wfe_atom_list, zok_atom_list.
+      + rewrite gsem_alts_atom_list. apply G; auto.
+      + intros x' Hx'. destruct (in_atom_list _ _ _ _ Hx') as (y & gy & Hy & ->). rewrite at_const. eapply galt_const; eauto.
+    - rewrite (visit_lbn_split (x :: r) g hc pc ns Hcs) in Hv.
+      assert (Hcf : Forall (cf_okD false lk (la_neg LookBehindNeg) (fun x g => sem cx (LookAround (atomize bs x g false) LookBehindNeg) fuel g)) (x :: r)).
+      { eapply Forall_impl; [|exact IHalts]. intros a Ha. apply la_neg_okD; auto. }
+      assert (Hsf : forall x g st st', oke false g x -> st_ok cs st ->
+                In st' (sem cx (LookAround (atomize bs x g false) LookBehindNeg) fuel g st) -> st_ok cs st').
+      { intros a ga st st' (Hwa & _) Hs Hin. eapply (sem_ok (LookAround (atomize bs a ga false) LookBehindNeg)); eauto.
+        cbn [wfe]. now apply at_wfe. }
+      eapply segP_ext; [|eapply (gseg_seqD false lk _ _ Hsf (x :: r) Hcf); eauto].
+      intros st Hst. cbv beta. symmetry. rewrite sem_lbn_split; auto using wfe_atom_list, zok_atom_list.
+      + apply gsem_seq_atom_list.
+      + intros x' Hx'. destruct (in_atom_list _ _ _ _ Hx') as (y & gy & Hy & ->). rewrite at_const.
+        clear - Hv Hy. revert g pc ns code ns' Hv. revert Hy. generalize (x :: r) as l.
+        intros l Hy. induction l as [|z l IHl]; intros g pc ns code ns' Hv; [destruct Hy|].
+        cbn [gseq_codes] in Hv. apply bindc_inr in Hv as ([c1 n1] & H1 & Hv). apply bindc_inr in Hv as ([c2 n2] & H2 & _).
+        destruct Hy as [<-|Hy]; [eapply (la_const LookBehindNeg); eauto|eapply IHl; eauto]. }
+  assert (Hlb : lb_alt_const c la).
+  { destruct la; try exact I; destruct c; try exact I; cbn [lb_alt_const]; now apply negb_false_iff in Esplit. }
+  rewrite (atomize_la bs c la g hc Edel Esplit).
+  rewrite (visit_la c la g hc pc ns Hlb) in Hv. rewrite Edel in Hv.
+  assert (Hbody : body_okD c g).
+  { destruct (hard bs g c) eqn:Hh; [right|left; exact Hh]. split; auto.
+    assert (Hzc : zok c) by (destruct c; try exact Hz; discriminate).
+    repeat split; auto. }
+  assert (Hcs : match la with LookBehind | LookBehindNeg => const_size c = true | _ => True end).
+  { destruct la; auto; unfold la_pos, la_neg, la_inner in Hv; destruct (const_size c); auto; discriminate. }
+  destruct la.
+  - eapply segP_ext; [|eapply seg_la_posD; eauto]. intros st Hst. cbv beta. now rewrite sem_la_eqD.
+  - eapply segP_ext; [|eapply seg_la_negD; eauto]. intros st Hst. cbv beta. now rewrite sem_la_eqD.
+  - eapply segP_ext; [|eapply seg_la_posD; eauto]. intros st Hst. cbv beta. now rewrite sem_la_eqD.
+  - eapply segP_ext; [|eapply seg_la_negD; eauto]. intros st Hst. cbv beta. now rewrite sem_la_eqD.
+Qed.
+
+
+Lemma sem_atomic_eq c fu g st : sem cx (AtomicGroup c) fu g st = firstn 1 (sem cx c fu g st).
+Proof. destruct st; reflexivity. Qed.
+
+Lemma seg_atomicD lk c : seg_stmtD false c -> seg_stmtD lk (AtomicGroup c).
+Proof.
+  intros IH. startD (AtomicGroup c). cbn [visit] in Hv. rewrite Edel in Hv. rewrite (atomize_atomic bs c g hc Edel).
+  apply bindc_inr in Hv as ([cc ns1] & Hc & Hr). inversion Hr; subst code ns'. clear Hr.
+  apply At_cons in HAt as [Ha1 HAt]. apply At_app in HAt as [HAc HA2]. apply At_cons in HA2 as [Ha2 _].
+  apply okdeleg2_cons in Hnd as [_ Hnd]. apply okdeleg2_app in Hnd as [Hndc _].
+  cbn [ngroups] in Hng. cbn [wfe] in Hw. cbn [zok] in Hz. cbn [acheck] in Hac. cbn [rok] in Hrk.
+  replace (pc + 1) with (S pc) in Hc by lia.
+  destruct (IH g false (S pc) ns cc ns1 Hc Hndc HAc (conj Hw (conj Hz (conj Hac Hrk))) Hns ltac:(lia)) as [Hmono IHc].
+  split; [exact Hmono|]. intros v K Hsl Hok.
+  destruct v as [ix sl aux]. rewrite sem_atomic_eq.
+  set (v1 := {| v_ix := ix; v_sl := sl; v_aux := aux ++ [V (length K)] |}).
+  apply Gen_step. unfold RunV at 1; cbn [v_ix v_sl v_aux]. rewrite (step_begin cx P MS pc ix sl aux K Ha1).
+  change (Run (S pc) ix sl (aux ++ [V (length K)]) K) with (RunV (S pc) v1 K).
+  specialize (IHc v1 K Hsl Hok). change (sof v1) with (sof {| v_ix := ix; v_sl := sl; v_aux := aux |}) in IHc.
+  destruct (asem c g false (sof {| v_ix := ix; v_sl := sl; v_aux := aux |})) as [|x rest]; cbn [firstn map] in *.
+  - inversion IHc; subst. apply Gen_nil. auto.
+  - inversion IHc as [|c0 v' F Q Ps Hs HF HQ Hrest]; subst.
+    destruct HQ as (Hi & Hcp & Hax & Hfr). apply auxrel_false in Hax.
+    destruct v' as [ix' sl' aux']. cbn [v_ix v_sl v_aux] in *. subst aux'.
+    eapply Gen_cons with (F := []) (v := {| v_ix := ix'; v_sl := sl'; v_aux := aux |}).
+    + eapply steps_trans; [exact Hs|]. apply steps_step. unfold RunV, v1; cbn [v_ix v_sl v_aux app].
+      rewrite (step_end cx P MS _ ix' sl' aux (F ++ K) (length K) Ha2) by (rewrite app_length; lia).
+      rewrite skipn_app_len. f_equal. cbn [length]. rewrite app_length. cbn [length]. lia.
+    + constructor.
+    + unfold R; cbn [v_ix v_sl v_aux]. auto.
+    + apply Gen_nil. apply steps_refl.
+Qed.
+
+Lemma seg_condD c y n : seg_stmtD false c -> seg_stmtD true y -> seg_stmtD true n ->
+  seg_stmtD true (Conditional c y n).
+Proof.
+  intros IHc IHy IHn. startD (Conditional c y n). cbn [visit] in Hv. rewrite Edel in Hv. rewrite (atomize_cond bs c y n g hc Edel).
+  apply bindc_inr in Hv as ([cc ns1] & Hc & Hv). apply bindc_inr in Hv as ([cy ns2] & Hy & Hv).
+  apply bindc_inr in Hv as ([cn ns3] & Hn & Hr). inversion Hr; subst code ns'. clear Hr.
+  cbn [wfe] in Hw. destruct Hw as (Hwc & Hwy & Hwn). cbn [zok] in Hz. destruct Hz as (Hzc & Hzy & Hzn).
+  cbn [rok] in Hrk. destruct Hrk as (Hrc & Hry & Hrn). cbn [ngroups] in Hng.
+  cbn [acheck] in Hac. destruct (acheck g c) eqn:Eac; [discriminate|].
+  destruct (acheck (g + ngroups c) y) eqn:Eay; [discriminate|].
+  set (pc_y := pc + 2 + length cc + 1) in *. set (pc_n := pc_y + length cy + 1) in *.
+  apply At_cons in HAt as [Ha1 HAt]. apply At_cons in HAt as [Ha2 HAt]. apply At_app in HAt as [HAc HAt].
+  apply At_cons in HAt as [Ha3 HAt]. apply At_app in HAt as [HAy HAt]. apply At_cons in HAt as [Ha4 HAn].
+  apply okdeleg2_cons in Hnd as [_ Hnd]. apply okdeleg2_cons in Hnd as [_ Hnd]. apply okdeleg2_app in Hnd as [Hndc Hnd].
+  apply okdeleg2_cons in Hnd as [_ Hnd]. apply okdeleg2_app in Hnd as [Hndy Hnd]. apply okdeleg2_cons in Hnd as [_ Hndn].
+  replace (S (S pc)) with (pc + 2) in * by lia.
+  replace (S (pc + 2 + length cc)) with pc_y in * by (unfold pc_y; lia).
+  replace (S (pc_y + length cy)) with pc_n in * by (unfold pc_n; lia).
+  destruct (IHc g hc (pc + 2) ns cc ns1 Hc Hndc HAc (conj Hwc (conj Hzc (conj Eac Hrc))) Hns ltac:(lia)) as [M1 G1].
+  destruct (IHy (g + ngroups c) hc pc_y ns1 cy ns2 Hy Hndy HAy (conj Hwy (conj Hzy (conj Eay Hry))) ltac:(lia) ltac:(lia)) as [M2 G2].
+  destruct (IHn (g + ngroups c + ngroups y) hc pc_n ns2 cn ns3 Hn Hndn HAn (conj Hwn (conj Hzn (conj Hac Hrn))) ltac:(lia) ltac:(lia)) as [M3 G3].
+  split; [lia|]. intros v K Hsl Hok.
+  set (q := pc + length (IBeginAtomic :: ISplit (pc + 2) pc_n :: cc ++ IEndAtomic :: cy ++ IJmp (pc_n + length cn) :: cn)).
+  assert (Eq : q = pc_n + length cn).
+  { unfold q, pc_n, pc_y. cbn [length]. rewrite !app_length. cbn [length]. rewrite app_length. cbn [length]. lia. }
+  rewrite C15_sem_cond, !at_ngroups.
+  destruct v as [ix sl aux].
+  set (v1 := {| v_ix := ix; v_sl := sl; v_aux := aux ++ [V (length K)] |}).
+  apply Gen_step. unfold RunV at 1; cbn [v_ix v_sl v_aux]. rewrite (step_begin cx P MS pc ix sl aux K Ha1).
+  change (Run (S pc) ix sl (aux ++ [V (length K)]) K) with (RunV (S pc) v1 K).
+  apply Gen_step. rewrite (step_splitV (S pc) v1 K _ _ Ha2).
+  specialize (G1 v1 (alt_of pc_n v1 :: K) ltac:(unfold v1; cbn [v_sl] in *; lia) Hok).
+  change (sof v1) with (sof {| v_ix := ix; v_sl := sl; v_aux := aux |}) in G1.
+  destruct (asem c g hc (sof {| v_ix := ix; v_sl := sl; v_aux := aux |})) as [|x rest] eqn:Esem; cbn [map] in G1.
+  - (* condition fails: the false branch runs with the leaked entry *)
+    inversion G1 as [c0 Hs|]; subst.
+    eapply Gen_steps; [eapply steps_trans; [exact Hs|apply steps_step; apply fail_alt]|].
+    apply Gen_weaken with (p := pc_n); [unfold pc_n, pc_y; lia|]. rewrite Eq.
+    specialize (G3 v1 K ltac:(unfold v1; cbn [v_sl] in *; lia) Hok).
+    change (sof v1) with (sof {| v_ix := ix; v_sl := sl; v_aux := aux |}) in G3.
+    eapply Gen_impl; [|exact G3]. apply Forall2_same_map. intros a _ v' (Hi & Hcp & Hax & Hfr).
+    unfold R. split; [auto|]. split; [auto|]. split.
+    + cbn [v_aux] in *. eapply auxrel_trans; [|exact Hax]. unfold v1; cbn [v_aux auxrel]. eexists; reflexivity.
+    + eapply frame_widen; [| |exact Hfr]; lia.
+  - (* condition has a result: cut, then the true branch from the first result *)
+    inversion G1 as [|c0 v' F Q Ps Hs HF HQ Hrest]; subst.
+    destruct HQ as (Hi & Hcp & Hax & Hfr). apply auxrel_false in Hax.
+    destruct v' as [ix' sl' aux']. cbn [v_ix v_sl v_aux] in *. subst aux'.
+    set (v2 := {| v_ix := ix'; v_sl := sl'; v_aux := aux |}).
+    eapply Gen_steps.
+    { eapply steps_trans; [exact Hs|]. apply steps_step. unfold RunV, v1; cbn [v_ix v_sl v_aux].
+      replace (F ++ alt_of pc_n {| v_ix := ix; v_sl := sl; v_aux := aux ++ [V (length K)] |} :: K)
+        with ((F ++ [alt_of pc_n {| v_ix := ix; v_sl := sl; v_aux := aux ++ [V (length K)] |}]) ++ K)
+        by (rewrite <- app_assoc; reflexivity).
+      rewrite (step_end cx P MS _ ix' sl' aux _ (length K) Ha3) by (rewrite app_length; lia).
+      rewrite skipn_app_len. reflexivity. }
+    change (Run (S (pc + 2 + length cc)) ix' sl' aux K) with (RunV (S (pc + 2 + length cc)) v2 K).
+    replace (S (pc + 2 + length cc)) with pc_y by (unfold pc_y; lia).
+    assert (Hsx : sof v2 = x) by (apply sof_eq; auto).
+    assert (Hokx : st_ok cs x).
+    { eapply (sem_ok (atomize bs c g hc)); [apply at_wfe; exact Hwc|exact Hok|]. rewrite Esem. left; reflexivity. }
+    assert (Hl2 : ns2 <= length (v_sl v2)) by (destruct Hfr as [L _]; unfold v2, v1 in *; cbn [v_sl] in *; lia).
+    specialize (G2 v2 K Hl2 ltac:(now rewrite Hsx)).
+    rewrite Hsx in G2.
+    apply Gen_weaken with (p := pc_y); [unfold pc_y; lia|].
+    eapply Gen_map with (q := pc_y + length cy); [unfold pc_n in Eq; lia| |exact G2].
+    apply Forall2_same_map. intros a _ v' K1 (Hi2 & Hcp2 & Hax2 & Hfr2). exists v'. split.
+    + apply steps_step. rewrite Eq. apply step_jmpV. exact Ha4.
+    + unfold R. split; [auto|]. split; [auto|]. split; [exact Hax2|].
+      destruct Hfr as [L1 F1], Hfr2 as [L2 F2]. unfold v2, v1 in *. cbn [v_sl] in *. split; [congruence|].
+      intros j Hj Ho. rewrite F2, F1; auto; lia.
+Qed.
+
+Lemma seg_allD_aux : forall e lk, seg_stmtD lk e /\ (forall es, e = Alt es -> Forall (seg_stmtD lk) es).
+Proof.
+  induction e using expr_ind'; intros lk; (split; [|try (intros es0 E0; discriminate)]).
+  - apply seg_emptyD.
+  - apply seg_anyD.
+  - apply seg_assertionD.
+  - apply seg_literalD.
+  - apply seg_concatD. eapply Forall_impl; [|exact H]. intros a Ha; apply Ha.
+  - apply seg_altD. eapply Forall_impl; [|exact H]. intros a Ha; apply Ha.
+  - intros es0 E0. inversion E0; subst. eapply Forall_impl; [|exact H]. intros a Ha; apply Ha.
+  - apply seg_groupD, IHe.
+  - apply seg_lookaroundD; apply IHe.
+  - apply seg_repeatD, IHe.
+  - apply seg_classD.
+  - apply seg_backrefD.
+  - apply seg_atomicD, IHe.
+  - apply seg_keepoutD.
+  - apply seg_contgD.
+  - apply seg_becD.
+  - destruct lk.
+    + apply seg_condD; [apply IHe1|apply IHe2|apply IHe3].
+    + intros g hc pc ns code ns' _ _ _ (_ & _ & _ & Hrk). destruct Hrk.
+  - intros g1 hc pc ns code ns' Hv Hnd HAt (Hw & Hz & Hac & Hrk) Hns Hng. cbn [acheck] in Hac. discriminate.
+Qed.
+
+Theorem seg_allD : forall lk e, seg_stmtD lk e.
+Proof. intros lk e. apply seg_allD_aux. Qed.
+
 End D.
 
 End CC.
